@@ -1,4 +1,531 @@
 package main
 
-func cmdCheck(args []string) int  { return 2 }
-func cmdReplay(args []string) int { return 2 }
+// Property checks: job lists per property and tier, known findings, native replay of witnesses and
+// counterexamples, evidence files.
+
+import (
+	"bytes"
+	"encoding/json"
+	"fmt"
+	"os"
+	"os/exec"
+	"path/filepath"
+	"sort"
+	"strconv"
+	"strings"
+	"time"
+)
+
+type CheckSpec struct {
+	ID          string
+	Patterns    []string
+	Jobs        func(tier string) []*JobCfg
+	Assumptions []string
+	Outside     []string
+	Stubs       []string
+	Bounds      func(tier string) string
+	GoalsMust   bool // declared Goal()s must all be covered
+	AllowBlocked bool
+}
+
+var checks = map[string]*CheckSpec{}
+
+func register(c *CheckSpec) { checks[c.ID] = c }
+
+type knownFile struct {
+	Findings []KnownFinding `json:"findings"`
+	Fixed    []string       `json:"fixed"`
+}
+
+func loadKnown(prop string) map[string]KnownFinding {
+	out := map[string]KnownFinding{}
+	b, err := os.ReadFile(filepath.Join(verifHome, "known_findings.json"))
+	if err != nil {
+		return out
+	}
+	var kf knownFile
+	if err := json.Unmarshal(b, &kf); err != nil {
+		fatalf(2, "known_findings.json: %v", err)
+	}
+	for _, f := range kf.Findings {
+		if f.Property == prop && f.Status != "fixed" {
+			out[f.ID] = f
+		}
+	}
+	return out
+}
+
+// ---------- native replay ----------
+
+type nativeOutcome struct {
+	Failed      []string `json:"failed_asserts"`
+	Panic       string   `json:"panic,omitempty"`
+	Diverged    string   `json:"diverged,omitempty"`
+	AssumeFalse bool     `json:"assume_false,omitempty"`
+	Obs         []ObsVal `json:"observations"`
+	Covers      []string `json:"covers,omitempty"`
+	Crashed     string   `json:"crashed,omitempty"`
+}
+
+type replayer struct {
+	dir  string
+	bins map[string]string // pkg -> test binary
+	errs map[string]string
+}
+
+func newReplayer() *replayer {
+	d, err := os.MkdirTemp("", "gosym-replay-")
+	if err != nil {
+		fatalf(2, "mkdtemp: %v", err)
+	}
+	return &replayer{dir: d, bins: map[string]string{}, errs: map[string]string{}}
+}
+
+func (r *replayer) close() { os.RemoveAll(r.dir) }
+
+func (r *replayer) binary(pkg string) (string, error) {
+	if b, ok := r.bins[pkg]; ok {
+		return b, nil
+	}
+	if e, ok := r.errs[pkg]; ok {
+		return "", fmt.Errorf("%s", e)
+	}
+	ov := map[string]map[string]string{"Replace": {}}
+	for virt, realp := range overlayFiles() {
+		ov["Replace"][virt] = realp
+	}
+	ovb, _ := json.Marshal(ov)
+	ovPath := filepath.Join(r.dir, "overlay.json")
+	os.WriteFile(ovPath, ovb, 0o644)
+	out := filepath.Join(r.dir, strings.ReplaceAll(pkg, "/", "_")+".test")
+	rel := "./" + strings.TrimPrefix(strings.TrimPrefix(pkg, "rcproxy"), "/")
+	cmd := exec.Command("go", "test", "-c", "-vet=off", "-tags", "verif", "-overlay", ovPath, "-o", out, rel)
+	cmd.Dir = repoRoot
+	cmd.Env = goEnv()
+	var buf bytes.Buffer
+	cmd.Stdout, cmd.Stderr = &buf, &buf
+	if err := cmd.Run(); err != nil {
+		r.errs[pkg] = "native build failed: " + buf.String()
+		return "", fmt.Errorf("%s", r.errs[pkg])
+	}
+	r.bins[pkg] = out
+	return out, nil
+}
+
+func (r *replayer) run(w *Witness) (*nativeOutcome, error) {
+	bin, err := r.binary(w.Pkg)
+	if err != nil {
+		return nil, err
+	}
+	wp := filepath.Join(r.dir, "w_"+w.Hash+".json")
+	b, _ := json.Marshal(w)
+	os.WriteFile(wp, b, 0o644)
+	op := wp + ".out"
+	os.Remove(op)
+	cmd := exec.Command(bin, "-test.run", "^TestVerifReplay$", "-test.timeout", "120s", "-test.count", "1")
+	cmd.Dir = r.dir
+	cmd.Env = append(os.Environ(), "VERIF_REPLAY="+wp, "VERIF_OUT="+op)
+	var buf bytes.Buffer
+	cmd.Stdout, cmd.Stderr = &buf, &buf
+	runErr := cmd.Run()
+	ob, err := os.ReadFile(op)
+	if err != nil {
+		// process died before writing an outcome: a runtime fatal error or os.Exit inside the code under test
+		msg := buf.String()
+		if len(msg) > 2000 {
+			msg = msg[:2000]
+		}
+		return &nativeOutcome{Crashed: fmt.Sprintf("%v: %s", runErr, msg)}, nil
+	}
+	var out nativeOutcome
+	if err := json.Unmarshal(ob, &out); err != nil {
+		return nil, err
+	}
+	return &out, nil
+}
+
+func obsEqual(a []ObsVal, b []ObsVal) (bool, string) {
+	if len(a) != len(b) {
+		return false, fmt.Sprintf("observation count: engine %d, native %d", len(a), len(b))
+	}
+	for i := range a {
+		if a[i].Label != b[i].Label || a[i].Int != b[i].Int || !bytes.Equal(a[i].Bytes, b[i].Bytes) {
+			return false, fmt.Sprintf("observation %d (%s): engine int=%d bytes=%q, native (%s) int=%d bytes=%q", i, a[i].Label, a[i].Int, a[i].Bytes, b[i].Label, b[i].Int, b[i].Bytes)
+		}
+	}
+	return true, ""
+}
+
+// reproduces reports whether the native outcome shows the expected violation.
+func reproduces(w *Witness, o *nativeOutcome) bool {
+	switch {
+	case strings.HasPrefix(w.Expect, "assert:"):
+		id := strings.TrimPrefix(w.Expect, "assert:")
+		for _, f := range o.Failed {
+			if f == id {
+				return true
+			}
+		}
+		return false
+	case w.Expect == "panic":
+		return o.Panic != "" || o.Crashed != ""
+	}
+	return false
+}
+
+// ---------- check ----------
+
+type evidence struct {
+	PropertyID  string                 `json:"property_id"`
+	Tier        string                 `json:"tier"`
+	Seed        int                    `json:"seed"`
+	Level       string                 `json:"level"`
+	Coverage    map[string]interface{} `json:"coverage"`
+	Assumptions []string               `json:"assumptions"`
+	WallS       float64                `json:"wall_s"`
+	Violations  int                    `json:"violations"`
+}
+
+func cmdCheck(args []string) int {
+	if len(args) < 1 {
+		usage()
+	}
+	id := args[0]
+	tier := envOr("VERIF_TIER", "quick")
+	for i := 1; i < len(args); i++ {
+		if args[i] == "--tier" && i+1 < len(args) {
+			tier = args[i+1]
+			i++
+		}
+	}
+	seed, _ := strconv.Atoi(envOr("VERIF_SEED", "0"))
+	spec, ok := checks[id]
+	if !ok {
+		fatalf(2, "unknown property %s", id)
+	}
+	t0 := time.Now()
+	known := loadKnown(id)
+	prog, lt := loadProgram(spec.Patterns...)
+	fmt.Printf("[%s %s] loaded %v + SSA in %.1fs (regenerated from %s)\n", id, tier, spec.Patterns, lt.Seconds(), repoRoot)
+	nw := 16
+	if v := os.Getenv("GOSYM_WORKERS"); v != "" {
+		nw, _ = strconv.Atoi(v)
+	}
+	jobs := spec.Jobs(tier)
+	var results []*JobResult
+	for _, j := range jobs {
+		j.Property = id
+		j.Known = known
+		r := runJob(prog, j, nw)
+		fmt.Println("  " + r.summary())
+		results = append(results, r)
+	}
+
+	rp := newReplayer()
+	defer rp.close()
+
+	inconclusive := []string{}
+	violLines := []string{}
+	knownLines := map[string]string{}
+	totalPaths, totalForks, totalInstrs, totalAsserts, validated, boundHits := 0, 0, 0, 0, 0, 0
+	var qs SolverStats
+	fns := map[string]bool{}
+	var samples []interface{}
+	distinct := 0
+	modelOnly := 0
+	replayDir := filepath.Join(verifHome, "replays", id)
+	os.MkdirAll(replayDir, 0o755)
+
+	for _, r := range results {
+		totalPaths += r.Paths
+		totalForks += r.Forks
+		totalInstrs += r.Instrs
+		totalAsserts += r.Asserts
+		distinct += len(r.Distinct)
+		qs.Queries += r.Solver.Queries
+		qs.Sat += r.Solver.Sat
+		qs.Unsat += r.Solver.Unsat
+		qs.Unknown += r.Solver.Unknown
+		qs.HardQueries += r.Solver.HardQueries
+		qs.Time += r.Solver.Time
+		for f := range r.Fns {
+			fns[f] = true
+		}
+		for st, n := range r.ByStatus {
+			switch st {
+			case "ok", "infeasible", "assertfail", "panic":
+			case "bound":
+				boundHits += n
+				inconclusive = append(inconclusive, fmt.Sprintf("%s: %d paths hit a bound", r.Cfg.Name, n))
+			case "blocked":
+				if !spec.AllowBlocked {
+					inconclusive = append(inconclusive, fmt.Sprintf("%s: %d paths blocked", r.Cfg.Name, n))
+				}
+			default:
+				inconclusive = append(inconclusive, fmt.Sprintf("%s: %d paths ended %s", r.Cfg.Name, n, st))
+			}
+		}
+		for d, n := range r.Details {
+			if !strings.HasPrefix(d, "panic") && !strings.HasPrefix(d, "assertfail") && !(spec.AllowBlocked && strings.HasPrefix(d, "blocked")) {
+				fmt.Printf("    %d x %s\n", n, d)
+			}
+		}
+		if r.Truncated {
+			inconclusive = append(inconclusive, fmt.Sprintf("%s: path limit reached", r.Cfg.Name))
+		}
+		if !r.Covers["end"] {
+			inconclusive = append(inconclusive, fmt.Sprintf("%s: vacuous (no path reaches the end of the harness)", r.Cfg.Name))
+		}
+		if spec.GoalsMust {
+			var missing []string
+			for g := range r.Goals {
+				if !r.Covers[g] {
+					missing = append(missing, g)
+				}
+			}
+			sort.Strings(missing)
+			for _, g := range missing {
+				// a cover goal no input can reach
+				kid := ""
+				for k, kf := range known {
+					if kf.Assert == "cover:"+g || kf.Assert == "cover" {
+						kid = k
+					}
+				}
+				if kid != "" {
+					knownLines[kid] = known[kid].What
+					continue
+				}
+				p := filepath.Join(replayDir, "cover_"+sanitize(g)+".json")
+				b, _ := json.MarshalIndent(map[string]interface{}{"property": id, "job": r.Cfg.Name, "unreachable_goal": g, "explanation": "no input within the bounds makes this goal true"}, "", " ")
+				os.WriteFile(p, b, 0o644)
+				violLines = append(violLines, fmt.Sprintf("VIOLATION property=%s replay=%s", id, p))
+				fmt.Printf("    unreachable cover goal %q in %s\n", g, r.Cfg.Name)
+			}
+		}
+		// violations: group by (id, known), replay a few per group
+		groups := map[string][]Violation{}
+		var order []string
+		for _, v := range r.Viols {
+			k := v.ID + "|" + v.Known + "|" + v.Kind
+			if _, ok := groups[k]; !ok {
+				order = append(order, k)
+			}
+			groups[k] = append(groups[k], v)
+		}
+		sort.Strings(order)
+		for _, k := range order {
+			vs := groups[k]
+			v0 := vs[0]
+			if v0.Kind == "unknown" {
+				inconclusive = append(inconclusive, fmt.Sprintf("%s: %d assertion queries undecided (%s)", r.Cfg.Name, len(vs), v0.ID))
+				continue
+			}
+			if v0.Known != "" {
+				knownLines[v0.Known] = known[v0.Known].What
+				continue
+			}
+			reproduced := false
+			var firstW *Witness
+			tried := 0
+			var lastOut *nativeOutcome
+			for _, v := range vs {
+				if v.W == nil {
+					continue
+				}
+				if firstW == nil {
+					firstW = v.W
+				}
+				if tried >= 4 {
+					break
+				}
+				tried++
+				attempts := 1
+				if v.W.MapOrd {
+					attempts = 24
+				}
+				for a := 0; a < attempts && !reproduced; a++ {
+					o, err := rp.run(v.W)
+					if err != nil {
+						inconclusive = append(inconclusive, "native replay unavailable: "+err.Error())
+						break
+					}
+					lastOut = o
+					if reproduces(v.W, o) {
+						reproduced = true
+						firstW = v.W
+					}
+				}
+				if reproduced {
+					break
+				}
+			}
+			if firstW == nil {
+				inconclusive = append(inconclusive, fmt.Sprintf("%s: violation %s without model", r.Cfg.Name, v0.ID))
+				continue
+			}
+			p := filepath.Join(replayDir, firstW.Hash+".json")
+			wb, _ := json.MarshalIndent(firstW, "", " ")
+			os.WriteFile(p, wb, 0o644)
+			switch {
+			case reproduced:
+				violLines = append(violLines, fmt.Sprintf("VIOLATION property=%s replay=%s", id, p))
+				fmt.Printf("    violation %s (%s) in %s reproduced natively: %s\n", v0.ID, v0.Kind, r.Cfg.Name, v0.Detail)
+			case !firstW.Forced:
+				modelOnly++
+				violLines = append(violLines, fmt.Sprintf("VIOLATION property=%s replay=%s", id, p))
+				fmt.Printf("    violation %s (%s) in %s holds in the model; it needs environment choices a native run cannot force (short writes / random source / pool reuse), so it was not replayed natively: %s\n", v0.ID, v0.Kind, r.Cfg.Name, v0.Detail)
+			default:
+				ob, _ := json.Marshal(lastOut)
+				inconclusive = append(inconclusive, fmt.Sprintf("%s: solver counterexample for %s did not reproduce natively (engine/stub mismatch?) witness=%s native=%s", r.Cfg.Name, v0.ID, p, ob))
+			}
+		}
+		// translator validation on completed paths
+		for _, w := range r.Witnesses {
+			if len(samples) < 6 {
+				samples = append(samples, map[string]interface{}{"job": w.Job, "params": w.Params, "inputs": w.Inputs})
+			}
+			if !w.Forced {
+				continue
+			}
+			attempts := 1
+			if w.MapOrd {
+				attempts = 24
+			}
+			okv := false
+			why := ""
+			for a := 0; a < attempts && !okv; a++ {
+				o, err := rp.run(w)
+				if err != nil {
+					why = err.Error()
+					break
+				}
+				if o.Crashed != "" || o.Panic != "" || len(o.Failed) > 0 || o.Diverged != "" || o.AssumeFalse {
+					ob, _ := json.Marshal(o)
+					why = "native run of a completed path did not complete cleanly: " + string(ob)
+					continue
+				}
+				if eq, msg := obsEqual(w.Obs, o.Obs); !eq {
+					why = msg
+					continue
+				}
+				okv = true
+			}
+			if okv {
+				validated++
+			} else {
+				p := filepath.Join(replayDir, "mismatch_"+w.Hash+".json")
+				wb, _ := json.MarshalIndent(w, "", " ")
+				os.WriteFile(p, wb, 0o644)
+				inconclusive = append(inconclusive, fmt.Sprintf("%s: translator validation failed (%s) witness=%s", r.Cfg.Name, why, p))
+			}
+		}
+	}
+
+	var kids []string
+	for k := range knownLines {
+		kids = append(kids, k)
+	}
+	sort.Strings(kids)
+	for _, k := range kids {
+		fmt.Printf("KNOWN-FINDING: property=%s %s: %s\n", id, k, knownLines[k])
+	}
+	seen := map[string]bool{}
+	for _, l := range violLines {
+		if !seen[l] {
+			fmt.Println(l)
+			seen[l] = true
+		}
+	}
+	for _, l := range inconclusive {
+		fmt.Println("INCONCLUSIVE: " + l)
+	}
+
+	var fl []string
+	for f := range fns {
+		fl = append(fl, f)
+	}
+	sort.Strings(fl)
+	var jobNames []string
+	for _, r := range results {
+		jobNames = append(jobNames, fmt.Sprintf("%s%v: paths=%d", r.Cfg.Func, r.Cfg.Params, r.Paths))
+	}
+	if len(samples) == 0 {
+		samples = append(samples, "no completed path produced a witness")
+	}
+	bounds := ""
+	if spec.Bounds != nil {
+		bounds = spec.Bounds(tier)
+	}
+	ev := evidence{PropertyID: id, Tier: tier, Seed: seed, Level: "model_checking", WallS: time.Since(t0).Seconds(), Violations: len(seen),
+		Assumptions: append(append([]string{}, spec.Assumptions...), "environment stubs: "+strings.Join(spec.Stubs, "; ")),
+		Coverage: map[string]interface{}{
+			"states":                        totalPaths,
+			"transitions":                   totalForks + totalPaths,
+			"traces_validated_against_impl": validated,
+			"samples":                       samples,
+			"explanation":                   "bounded symbolic execution of the repository's SSA (regenerated from the working tree on this run); states = explored paths (each a class of inputs), transitions = solver-decided forks; every assertion is an SMT query over all inputs of the path",
+			"functions_encoded":             fl,
+			"bounds":                        bounds,
+			"jobs":                          jobNames,
+			"bound_hits":                    boundHits,
+			"distinct_paths":                distinct,
+			"assertion_queries":             totalAsserts,
+			"queries":                       map[string]int{"total": qs.Queries, "sat": qs.Sat, "unsat": qs.Unsat, "unknown": qs.Unknown, "assertion_tactic_qfbv": qs.HardQueries},
+			"solver":                        solverBin + " (z3 5.1.0), incremental push/pop; assertion queries via (check-sat-using qfbv)",
+			"solver_time_s":                 qs.Time.Seconds(),
+			"ssa_instructions_interpreted":  totalInstrs,
+			"known_findings_reported":       kids,
+			"model_level_only_violations":   modelOnly,
+			"outside_claim":                 spec.Outside,
+			"inconclusive":                  inconclusive,
+			"exhaustive":                    false,
+		}}
+	eb, _ := json.MarshalIndent(ev, "", " ")
+	os.MkdirAll(filepath.Join(verifHome, "evidence"), 0o755)
+	os.WriteFile(filepath.Join(verifHome, "evidence", id+".json"), eb, 0o644)
+	fmt.Printf("[%s %s] paths=%d forks=%d assertion-queries=%d validated-natively=%d violations=%d known=%d wall=%.1fs\n", id, tier, totalPaths, totalForks, totalAsserts, validated, len(seen), len(kids), time.Since(t0).Seconds())
+	if len(seen) > 0 {
+		return 1
+	}
+	if len(inconclusive) > 0 {
+		return 3
+	}
+	return 0
+}
+
+func cmdReplay(args []string) int {
+	if len(args) < 1 {
+		usage()
+	}
+	b, err := os.ReadFile(args[0])
+	if err != nil {
+		fatalf(2, "%v", err)
+	}
+	var w Witness
+	if err := json.Unmarshal(b, &w); err != nil || w.Pkg == "" {
+		fmt.Printf("%s\n(not a replayable witness: it documents a cover goal or a model-level finding)\n", b)
+		return 1
+	}
+	rp := newReplayer()
+	defer rp.close()
+	attempts := 1
+	if w.MapOrd {
+		attempts = 24
+	}
+	for a := 0; a < attempts; a++ {
+		o, err := rp.run(&w)
+		if err != nil {
+			fatalf(2, "%v", err)
+		}
+		ob, _ := json.MarshalIndent(o, "", " ")
+		if reproduces(&w, o) {
+			fmt.Printf("replay of %s (%s%v, expect %s): REPRODUCED\n%s\n", args[0], w.Func, w.Params, w.Expect, ob)
+			return 1
+		}
+		if a == attempts-1 {
+			fmt.Printf("replay of %s (%s%v, expect %s): not reproduced\n%s\n", args[0], w.Func, w.Params, w.Expect, ob)
+		}
+	}
+	return 0
+}
